@@ -4,7 +4,8 @@ From Coq Require Import String List NArith ZArith Bool.
 From J5V.lib Require Import Outcome.
 From J5V.model Require Import ReflectDesc ReflectSchema Reflect ReflectSpec.
 From J5V.gen Require ReflectGen.
-From J5V.proofs Require Import ReflectProofs.
+From J5V.proofs Require Import ReflectProofs ExportProofs ReflectInvProofs.
+From J5V.model Require Import Export.
 Import ListNotations.
 
 (* The property at full strength, for every abstract descriptor set [D] (no hypothesis at all)
@@ -34,6 +35,19 @@ Theorem C18_cache_schema_total : forall D, wf_total D -> forall st m, In m (d_ms
   Inv D st' /\ ext st st' /\ (forall s, o <> Panic s) /\ o <> OutOfFuel.
 Proof. exact cache_schema_total. Qed.
 Print Assumptions C18_cache_schema_total.
+
+(* ---- self-consistency of a successful reflection, for every well-formed descriptor set (wf_desc:
+   enums non-empty; split names of messages / enums / real oneofs pairwise distinct; JSON names of
+   the fields and exposed oneofs of a message distinct): distinct keys, no unlinked placeholder,
+   pairwise distinct property names in every object and oneof, every scalar format known, every
+   reference names an entry of the set *)
+Theorem C18_reflect_ok_guarantees : forall D, wf_desc D -> forall fs S,
+  reflect D fs = Ok S ->
+  keys_distinct S = true /\ set_importable S = true /\ set_closed S = true /\
+  (forall k r, lookup S k = Some (Linked r) -> names_unique_b (root_props r) = true) /\
+  (forall k, lookup S k <> Some Placeholder).
+Proof. exact reflect_ok_guarantees. Qed.
+Print Assumptions C18_reflect_ok_guarantees.
 
 (* each proto kind is handled by an arm or rejected with an error, as the Go switches list them *)
 Theorem C18_scalar_arms_are_the_code's :
@@ -69,7 +83,7 @@ Definition collision_desc : desc :=
 Theorem C18_split_name_collision_refuted : ~ C18_full_statement.
 Proof.
   intros H. destruct (H collision_desc (d_files collision_desc)) as [Hp _].
-  apply (Hp "buildEnumFieldSchema: ref.To.(*EnumSchema) on a nil RootSchema"%string).
+  apply (Hp "buildEnumFieldSchema: ref.To.(EnumSchema) on a nil RootSchema"%string).
   vm_compute. reflexivity.
 Qed.
 Print Assumptions C18_split_name_collision_refuted.
@@ -143,9 +157,10 @@ Definition ex_desc : desc :=
      d_files := [File (bytes "p/v1/a.proto") (bytes "p.v1") [bytes "p.v1.Node"; bytes "p.v1.Peer"] [bytes "p.v1.Kind"]] |}.
 
 Example C18_example :
-  wf_total ex_desc /\
+  wf_desc ex_desc /\ wf_total ex_desc /\
   exists S, reflect ex_desc (d_files ex_desc) = Ok S /\ length S = 3%nat /\ set_consistent ex_desc S = true.
 Proof.
+  split; [apply wf_desc_b_sound; vm_compute; reflexivity|].
   split.
   - split.
     + intros e [<-|[]]. cbn. discriminate.
